@@ -139,6 +139,7 @@ con = contract("cohdl._compiler.backend.vhdl._vhdl_repr:Library.from_top_entity"
 for name, dag in list(DAGS.items()) + [(n, DAGS["fan-out"]) for n in DAG_NAMES]:
     c = Case(name, [dag_shape(dag, DAG_NAMES.get(name))], lib_reject_spec if name in DAG_NAMES else lib_spec(dag))
     c.native = False
+    c.models = [(VR.Entity.__dict__["name"], lambda it, self: self.fields["f_name"])]  # case-level: other modules model Entity.name differently
     if name in DAG_NAMES:
         c.custom_replay = "contracts.c06_ports.replay_entity_names"
     c.interp_flags = {"class_call_models": {
@@ -500,6 +501,7 @@ for name, (formals, call) in SCENARIOS.items():
     con.cases.append(c)
 
 
+contract("cohdl._core._context:Entity.__init__", ("C05",))  # "port connection" of C05 (the module is loaded for C05 and C12 only)
 # the VHDL TYPE of an actual: a port map names the connected object (plus a slice / index), it contains no conversion.  The type
 # of that text is the DECLARED type of the root object (a slice of an unsigned signal is unsigned, whatever view the Python
 # object is), so for vector ports the root's vector type must be the port's: `b => u` with b : std_logic_vector and
